@@ -328,6 +328,25 @@ func prepare(p *propCfg, repo string) (string, error) {
 			return "", fmt.Errorf("build conf worker: %v\n%s", err, out)
 		}
 		confBin = cb
+		// ... and a second build of the same worker from a copy in which the package's atomics
+		// and locks ARE scheduling points (satomic, ssync): used for the first-use sweep, where
+		// what matters happens inside the first calls (a lazily built table, a lazily created
+		// default).  Code that blocks on channels cannot be scheduled that way (the rewriter
+		// refuses it); then the sweep uses the plain build.
+		confFineBin = ""
+		fine := filepath.Join(base, "fine")
+		if out, err := run("", nil, "rsync", "-a", plain+"/", fine+"/"); err != nil {
+			return "", fmt.Errorf("copy (fine): %v %s", err, out)
+		}
+		if out, err := run("", goEnv(), filepath.Join(verifDir, "bin", "rewrite"), "-root", filepath.Join(fine, "golib"), "-pkgs", p.Pkgs, "-imports", "sync/atomic=satomic,sync=ssync", "-nochan"); err != nil {
+			fmt.Fprintf(os.Stderr, "verifctl: first-use sweep on the plain companion build (%s)\n", strings.TrimSpace(lastLine(string(out))))
+		} else {
+			fb := filepath.Join(base, "conf_fine_worker")
+			if out, err := run(filepath.Join(fine, "harness"), goEnv(), "go", "build", "-race", "-o", fb, "./cmd/conf"); err != nil {
+				return "", fmt.Errorf("build conf worker (fine): %v\n%s", err, out)
+			}
+			confFineBin = fb
+		}
 	}
 	return worker, nil
 }
@@ -335,8 +354,17 @@ func prepare(p *propCfg, repo string) (string, error) {
 // counters of the companion worker for the evidence file
 var confRuns, confRaces, confDetN int
 
-// confBin is the companion worker of the current (Engine C) check, see prepare.
-var confBin string
+// confBin is the companion worker of the current (Engine C) check, confFineBin its variant with
+// scheduling points inside the package, see prepare.
+var confBin, confFineBin string
+
+func lastLine(s string) string {
+	s = strings.TrimSpace(s)
+	if i := strings.LastIndexByte(s, '\n'); i >= 0 {
+		return s[i+1:]
+	}
+	return s
+}
 
 type violation struct {
 	Class  string `json:"class"`
@@ -522,6 +550,10 @@ func replayOnce(worker, dir string, c caseDoc, strict bool, tag string) (caseDoc
 		// a case of the companion worker (thread-confined instances)
 		worker = confBin
 		extra = append(extra, "VERIF_CONF_PROP="+fmt.Sprint(c["property"]))
+		if fmt.Sprint(pm["conf"]) == "2" && confFineBin != "" {
+			worker = confFineBin
+			extra = append(extra, "VERIF_CONF_FINE=1")
+		}
 	}
 	cmd := exec.Command(worker, args...)
 	cmd.Env = workerEnv(dir, 900, extra...)
@@ -662,6 +694,20 @@ func checkCmd(p *propCfg, tier, repo string, writeEvidence bool) int {
 		if co == nil {
 			return 2
 		}
+		// and a sweep of fresh processes, one run each: the first run of a process is the only
+		// one that sees the package's lazily initialised state untouched
+		pc := *p
+		pc.Engine = "A"
+		sweepBin, sweepEnv := confBin, []string{"VERIF_CONF_PROP=" + p.ID}
+		if confFineBin != "" {
+			sweepBin, sweepEnv = confFineBin, append(sweepEnv, "VERIF_CONF_FINE=1")
+		}
+		sw, serr := explore(&pc, sweepBin, filepath.Join(scratch, p.ID, "conf_sweep"), seed+7919, 32, 0, 1, tier, false, sweepEnv...)
+		if serr != nil {
+			fmt.Fprintf(os.Stderr, "verifctl: conf worker (first-use sweep): %v\n", serr)
+			return 2
+		}
+		co = append(co, sw...)
 		for _, o := range co {
 			confRuns += o.Runs
 			confRaces += o.RaceReports
